@@ -106,7 +106,9 @@ def real_banks(run, tier, nprng):
                                        use_log=log, use_power=power, include_energy=energy)
         geo = (comp._frame_shift, comp._max_support, comp._translation, comp._dft_size)
         x = nprng.randn(N) * (1.0, 1.0, 1e-3, 0.0)[(k + N) % 4]
-        w2 = comp._window.reshape(-1)  # the window as the library built it (C20's business): 2S taps
+        # no window_function given: the documented default is decided by the frame style alone (Gamma for causal,
+        # Hann otherwise), whatever the bank's phase; the taps themselves are C20's business
+        w2 = (filters.GammaWindow() if style == "causal" else filters.HannWindow()).get_impulse_response(2 * S)
         filt = list(gs)
         if energy:
             e = np.zeros(T + 1)
